@@ -5,7 +5,7 @@ import ast
 import operator
 
 from .repo import AnalysisError
-from .terms import (App, Atom, Attr, BoundMethod, BuiltinRef, ClassRef, Closure, Comp, Elem, EnumVal, FStr, FuncRef,
+from .terms import (NTuple, Partial, App, Atom, Attr, BoundMethod, BuiltinRef, ClassRef, Closure, Comp, Elem, EnumVal, FStr, FuncRef,
                     ModRef, Obj, Op, Opaque, Star, Sub, Sym, Term, contains_term, vkey)
 from .calls import CallMixin
 
@@ -122,10 +122,28 @@ class EvalMixin(CallMixin):
             return v if v is not NotImplemented else Sym(repo.canon(target))
         return Sym(target)
 
-    def const_value(self, m, e, _d=0):
-        """Module-level constant expression -> value (literals, unions of classes, simple arithmetic)."""
+    def const_value(self, m, e, _d=0, cls=None):
+        """Module-level / class-level constant expression -> value (literals, unions of classes, simple arithmetic, tables)."""
         if _d > 6:
             return NotImplemented
+        if cls is not None and isinstance(e, ast.Name) and e.id in cls.methods:
+            return FuncRef(cls.methods[e.id])
+        if cls is not None and isinstance(e, (ast.List, ast.Tuple, ast.Set, ast.Dict)):
+            sub = lambda x: self.const_value(m, x, _d + 1, cls)
+            if isinstance(e, ast.Dict):
+                if any(k is None for k in e.keys):
+                    return NotImplemented
+                ks, vs = [sub(x) for x in e.keys], [sub(x) for x in e.values]
+                if any(v is NotImplemented for v in ks + vs):
+                    return NotImplemented
+                try:
+                    return dict(zip(ks, vs))
+                except TypeError:
+                    return NotImplemented
+            vals = [sub(x) for x in e.elts]
+            if any(v is NotImplemented for v in vals):
+                return NotImplemented
+            return list(vals) if isinstance(e, ast.List) else tuple(vals) if isinstance(e, ast.Tuple) else set(vals)
         try:
             return ast.literal_eval(e)
         except Exception:
@@ -166,6 +184,20 @@ class EvalMixin(CallMixin):
                 if self.repo.is_enum(ci.qual):
                     return EnumVal(ci.qual, q.rsplit(".", 1)[-1])
             return NotImplemented
+        if isinstance(e, (ast.List, ast.Tuple, ast.Set)):
+            vals = [self.const_value(m, x, _d + 1) for x in e.elts]
+            if any(v is NotImplemented for v in vals):
+                return NotImplemented
+            return list(vals) if isinstance(e, ast.List) else tuple(vals) if isinstance(e, ast.Tuple) else set(vals)
+        if isinstance(e, ast.Dict) and all(k is not None for k in e.keys):
+            ks = [self.const_value(m, x, _d + 1) for x in e.keys]
+            vs = [self.const_value(m, x, _d + 1) for x in e.values]
+            if any(v is NotImplemented for v in ks + vs):
+                return NotImplemented
+            try:
+                return dict(zip(ks, vs))
+            except TypeError:
+                return NotImplemented
         if isinstance(e, ast.Call) and isinstance(e.func, ast.Name) and e.func.id == "int" and len(e.args) == 1:
             v = self.const_value(m, e.args[0], _d + 1)
             try:
@@ -187,6 +219,8 @@ class EvalMixin(CallMixin):
 
     def getattr_ref(self, base, bref, attr, node, fr):
         repo = self.repo
+        if isinstance(base, NTuple) and attr in base.names:
+            return base.field(attr), (Attr(bref, attr) if bref is not None else None)
         if isinstance(base, ModRef):
             q = f"{base.qual}.{attr}"
             if base.qual in repo.modules or repo.lookup(q) is not None:
@@ -208,7 +242,7 @@ class EvalMixin(CallMixin):
                         key = f"{q}.{attr}"
                         if key in self.heap:
                             return self.heap[key], Sym(key)
-                        v = self.const_value(ci.module, ci.class_attrs[attr])
+                        v = self.const_value(ci.module, ci.class_attrs[attr], cls=ci)
                         return (v if v is not NotImplemented else Sym(key)), Sym(key)
             if attr == "__name__":
                 return base.qual.rsplit(".", 1)[-1], None
@@ -261,6 +295,20 @@ class EvalMixin(CallMixin):
                             return FuncRef(fi), None
                         return BoundMethod(base, attr, fi, bref if bref is not None else base), None
                     ci, ann = repo.field_ann(cq, attr)
+                    if ci is not None and attr in ci.init_values and isinstance(ci.init_values[attr], (ast.List, ast.Tuple, ast.Dict)):
+                        init = repo.find_method(cq, "__init__")
+                        if init is not None:
+                            from .interp import Cell, Frame
+                            tf = Frame(init, None, fr.depth)
+                            tf.declared = set()
+                            tf.locals["self"] = Cell(base, bref if bref is not None else base)
+                            try:
+                                tv = self.eval(ci.init_values[attr], tf)
+                                if not isinstance(tv, Term):
+                                    self.heap[r.key()] = tv
+                                    return tv, r
+                            except Exception:
+                                pass
                     if ci is None:
                         cv, cr = self.getattr_ref(ClassRef(cq), None, attr, node, fr)
                         if not (isinstance(cv, Sym) and cv.name == f"{cq}.{attr}"):
